@@ -169,7 +169,7 @@ fn find_rlib() -> Option<(String, String)> {
 /// Ask rustc whether `W: Send` / `W: Sync` for one row; must agree with the observed booleans.
 pub fn rustc_probe(r: &Row, idx: usize) -> Result<(), String> {
     let (rlib, deps) = find_rlib().ok_or("arc_swap rlib not found")?;
-    let dir = format!("{}/work/probes", crate::driver::VERIF);
+    let dir = format!("{}/work/probes", crate::driver::verif_dir());
     std::fs::create_dir_all(&dir).map_err(|e| e.to_string())?;
     for (bound, expect) in [("Send", r.w_send), ("Sync", r.w_sync)] {
         let file = format!("{}/probe_{}_{}_{}.rs", dir, std::process::id(), idx, bound);
